@@ -51,6 +51,7 @@ fn main() {
         match engine {
             "push" => push_engine::run(&mut out, seed, n, &opts),
             "push-replay" => push_engine::replay(&mut out, &opts),
+            "pushsched" => push_engine::run_sched(&mut out, seed, n, &opts),
             "pushfault" => push_engine::run_faults(&mut out, seed, n, &opts),
             "pushfault-replay" => push_engine::replay_faults(&mut out, &opts),
             other => { eprintln!("unknown engine {}", other); std::process::exit(2); }
